@@ -43,3 +43,23 @@ chk("C20",
     "Trusted: mc/ref.py for solution sets; D_a captured at the Randomizer.randomize seam.",
     "complete-tree exploration with exact outcome distributions and a relational (pairwise) oracle",
     "DESIGN.md section 3 C20")
+chk("C03",
+    "Explicit-state BFS (depth 4 quick / 5 thorough) over histories of assignments, rand_mode toggles, rangelist/list edits and four kinds of randomizing calls (incl. free-standing vsc.randomize on a subset, calls made unsatisfiable) on three object variants; every randomizing step explored with <=2 non-default answers (bound raised up to the complete tree while solutions are missing). Frame: fields not random in the call unchanged after success and after SolveFailure. Call-time: reachable results EQUAL the reference solution set computed from the current x / rangelist / list / rand_mode.",
+    "Trusted: reference predicates in props/c03.py. Empty rangelist / empty list membership are outside the alphabet (the statement gives them no meaning). A field with rand_mode off passed explicitly to vsc.randomize is outside the alphabet.",
+    "explicit-state BFS over API histories with deviation-bounded exploration of each randomizing step and an equality oracle",
+    "DESIGN.md section 3 C03")
+chk("C08",
+    "All object trees of depth<=2, fan-out<=2 from two classes (two siblings of one class always present, every attribute random or non-random, optional rand_list_t/list_t of two leaves) x cross-level constraint sets x presets that make non-random sub-objects violate their own block: every answer sequence with <=1 non-default answer (constraints hold on path-named fields, non-random parts untouched, their blocks not imposed) plus witness-directed executions for every value of every field projection and every value pair of sibling/list-element pairs (equality with the enumerated reference solution set).",
+    "Trusted: reference in props/objtree.py; solution sets enumerated for trees with <=8 random fields (larger trees get the inclusion oracle only).",
+    "bounded exhaustive exploration over object-tree shapes + witness-directed reachability of every projected solution value",
+    "DESIGN.md section 3 C08")
+chk("C16",
+    "Fault enumeration: every (scenario, fault position) pair - user exception at each statement position of a constraint body during construction (top level, inside if_then/implies/foreach, with a dangling expression), at each statement position of a randomize_with block, in pre/post_randomize of each object of the tree, unsatisfiable calls (once and twice) - x every follow-up sequence of length<=2 out of 6 follow-ups; checks (i) process-wide stacks empty and no override node / solver handle left on the victim, (ii) differential twin (pristine session run first in the same process) under identical answer scripts with <=1 deviation.",
+    "Trusted: stack list and model walk in props/c16.py. Library-internal exceptions (not user code) are outside the statement.",
+    "exhaustive fault-position enumeration with differential twin and state-idle invariant",
+    "DESIGN.md section 3 C16", category="fault_enumeration")
+chk("C17",
+    "All object trees of props/objtree.py x {randomize, randomize_with, vsc.randomize} x values assigned by pre_randomize to a non-random field used in a constraint; every answer sequence with <=1 non-default answer; each class records (object, phase, snapshot). Oracle: exactly one pre and one post per object random in the call, none at or below a non-random sub-object; all pre before all post; pre sees pre-call values; solver saw pre's assignment; post sees final values.",
+    "Trusted: expected_events() derived from the tree spec.",
+    "bounded exhaustive exploration over object-tree shapes and call kinds with an event-log oracle",
+    "DESIGN.md section 3 C17")
